@@ -95,8 +95,8 @@ def table_of(prog, T, fn, consts, k=2, kinds=('failure',), bools=False):
     return rows
 
 
-def compare(ctx, rule, prog, T, fn, consts, table_name, k=2, bools=False):
-    cur = table_of(prog, T, fn, consts, k, bools=bools)
+def compare(ctx, rule, prog, T, fn, consts, table_name, k=2, bools=False, kinds=('failure',)):
+    cur = table_of(prog, T, fn, consts, k, kinds=kinds, bools=bools)
     path = os.path.join(TABLES, table_name + '.json')
     if os.environ.get('VERIF_REGEN_TABLES') == '1':
         json.dump(sorted([[c, list(d), n] for (c, d), n in cur.items()]), open(path, 'w'), indent=1)
